@@ -4,9 +4,11 @@ flat_struct_dec_enc / nested_struct_dec_enc / nested_struct_ref_bytes_eq) and th
 nanoserde-derive generate for the enums the macro emits, and — inside them — the HAND-WRITTEN codec of the recursive
 map diff. Used by C14.
 
-Tie shapes: every field is flat (plain `u32` / `Option<u32>`) or a recursive map (`recurse` + `unordered_map_like`,
-either equality mode) whose values are flat structs; any skip pattern. There the whole byte string is determined by
-the model.
+Tie shapes: every field is flat (plain `u32` / `Option<u32>`), a `recurse` into a flat struct, an ordered list, an
+unordered array-like collection, a flat map (elements / keys / values `u32`), or a recursive map (either equality
+mode) whose values are flat structs, or an `Option` + `recurse` field of a flat struct (two enum variants: the
+optional nested list and the whole new value); any skip pattern. There the whole byte string is determined by the
+model. Not covered: plain fields of other types (nested structs, enums, floats), generics.
 
  stream A: pairs (a, b) -> the REAL diff / diff_ref serialized by the real encoders (both formats, both forms). For
            each of the two byte strings: (1) the MODEL decoder accepts the real bytes and re-encodes them to the
@@ -39,9 +41,25 @@ def rm_field(f):
     return f['k'] == 'recmap' and flat_struct(f['inner']) and any(not g['skip'] for g in f['inner']['fields'])
 
 
+def ne_field(f):
+    return f['k'] == 'recurse' and flat_struct(f['inner']) and any(not g['skip'] for g in f['inner']['fields'])
+
+
+def ropt_field(f):
+    return f['k'] == 'ropt' and flat_struct(f['inner']) and any(not g['skip'] for g in f['inner']['fields'])
+
+
+def coll_field(f):
+    return f['k'] in ('ordered', 'unord') or (f['k'] == 'map' and f.get('vty', 'u32') == 'u32')
+
+
+def tie_field(f):
+    return flat_field(f) or rm_field(f) or ne_field(f) or ropt_field(f) or coll_field(f)
+
+
 def is_tie(sh):
     return (sh['t'] == 'struct' and not sh.get('generic') and len(sh['fields']) > 0 and
-            all(flat_field(f) or rm_field(f) for f in sh['fields']) and any(not f['skip'] for f in sh['fields']))
+            all(tie_field(f) for f in sh['fields']) and any(not f['skip'] for f in sh['fields']))
 
 
 def is_flat(sh):
@@ -60,19 +78,27 @@ def extra_shapes():
         struct([F('plain', skip=(1 if i % 3 == 1 else 0)) if i % 2 else O(skip=(1 if i % 5 == 0 else 0)) for i in range(18)]),
         struct([F('plain', skip=1), F('recmap', mode='kv', inner=leaf(), cont='HashMap'), F('plain')]),
         struct([F('recmap', mode='ko', inner=leaf2(), cont='HashMap'), O(), F('recmap', mode='kv', inner=leaf2(), cont='HashMap')]),
+        struct([F('ordered', cont='Vec'), F('plain', skip=1), F('unord', cont='Vec'), F('map', mode='kv', cont='HashMap'), F('recurse', inner=leaf())]),
+        struct([F('ropt', inner=leaf()), F('plain', skip=1), F('plain'), F('ropt', inner=leaf2()), O()]),
+        struct([F('recurse', inner=leaf2()), F('unord', cont='HashSet'), F('plain', skip=1), F('ordered', cont='Vec'), F('map', mode='ko', cont='HashMap'), O()]),
     ]
 
 
+def leaf_desc(inner):
+    return [1 if g['skip'] else 0 for g in inner['fields']], [1 if g.get('rty', 'u32') == 'Option<u32>' else 0 for g in inner['fields']]
+
+
+def kind_of(f):
+    if flat_field(f): return 1 if f.get('rty', 'u32') == 'Option<u32>' else 0
+    if f['k'] == 'ordered': return 'ord'
+    if f['k'] == 'unord': return 'uarr'
+    if f['k'] == 'map': return 'umap'
+    sk, op = leaf_desc(f['inner'])
+    return [{'recmap': 'rm', 'recurse': 'ne', 'ropt': 'on'}[f['k']], sk, op]
+
+
 def skips_kinds(sh):
-    sk = [1 if f['skip'] else 0 for f in sh['fields']]
-    ks = []
-    for f in sh['fields']:
-        if flat_field(f):
-            ks.append(1 if f.get('rty', 'u32') == 'Option<u32>' else 0)
-        else:
-            inner = f['inner']
-            ks.append(['rm', [1 if g['skip'] else 0 for g in inner['fields']], [1 if g.get('rty', 'u32') == 'Option<u32>' else 0 for g in inner['fields']]])
-    return sk, ks
+    return [1 if f['skip'] else 0 for f in sh['fields']], [kind_of(f) for f in sh['fields']]
 
 
 def pv(v):
@@ -92,14 +118,70 @@ def gen_leaf_vals(inner, rnd):
     return [gen_flat(g, rnd) for g in inner['fields']]
 
 
+def apply_script(l, script):
+    l = list(l)
+    for c in script:
+        if c[0] == 'Replace': l[int(c[2])] = int(c[1])
+        elif c[0] == 'Insert': l.insert(int(c[2]), int(c[1]))
+        elif c[0] == 'Swap':
+            i, j = int(c[1]), int(c[2]); l[i], l[j] = l[j], l[i]
+        elif c[2] == 'None': del l[int(c[1])]
+        else: del l[int(c[1]):int(c[2][1]) + 1]
+    return l
+
+
+def apply_udiff(l, d):
+    if d[0] == 'Replace':
+        return [int(x) for x in d[1]]
+    cnt = {}
+    for x in l: cnt[int(x)] = cnt.get(int(x), 0) + 1
+    for c in d[1]:
+        x = int(c[1]); n = 1 if c[0].endswith('Single') else int(c[2])
+        if c[0].startswith('Insert'): cnt[x] = cnt.get(x, 0) + n
+        else: cnt[x] = max(0, cnt.get(x, 0) - n)
+    return sorted(x for x, n in cnt.items() for _ in range(n))
+
+
+def apply_mdiff(pairs, d):
+    if d[0] == 'Replace':
+        return sorted([int(k), int(v)] for k, v in d[1])
+    m = {int(k): int(v) for k, v in pairs}
+    for c in d[1]:
+        if c[0] == 'InsertSingle': m[int(c[1])] = int(c[2])
+        elif c[0] == 'RemoveSingle': m.pop(int(c[1]), None)
+        elif c[0] == 'InsertMany':
+            if int(c[3]) > 0: m[int(c[1])] = int(c[2])
+        elif int(c[2]) > 0: m.pop(int(c[1]), None)
+    return [[k, m[k]] for k in sorted(m)]
+
+
 def apply_entries(sh, x, es):
-    """the plain meaning of an entry list on a protocol value"""
+    """the plain meaning of an entry list on a protocol value (collections of unordered strategies come out sorted)"""
     out = list(x)
     for j, p in es:
         j = int(j); f = sh['fields'][j]
         if flat_field(f):
             out[j + 1] = p; continue
-        inner = f['inner']
+        if f['k'] == 'ordered':
+            out[j + 1] = ['l'] + apply_script([int(v) for v in out[j + 1][1:]], p); continue
+        if f['k'] == 'unord':
+            r = apply_udiff(out[j + 1][1:], p)
+            if f['cont'] in ('HashSet', 'BTreeSet'): r = sorted(set(r))      # the result is collected into a set
+            out[j + 1] = ['l'] + r; continue
+        if f['k'] == 'map':
+            out[j + 1] = ['p'] + apply_mdiff(out[j + 1][1:], p); continue
+        if f['k'] == 'recurse':
+            leaf = list(out[j + 1])
+            for jj, q in p: leaf[int(jj) + 1] = q
+            out[j + 1] = leaf; continue
+        if f['k'] == 'ropt':
+            if p == 'none': out[j + 1] = 'none'
+            elif p[0] == 'full': out[j + 1] = ['some', ['s'] + list(p[1])]
+            elif out[j + 1] != 'none':
+                leaf = list(out[j + 1][1])
+                for jj, q in p[1]: leaf[int(jj) + 1] = q
+                out[j + 1] = ['some', leaf]
+            continue
         cur = {int(kv[0]): list(kv[1]) for kv in out[j + 1][1:]}
         if p[0] == 'Replace':
             cur = {int(k): ['s'] + list(vs) for k, vs in p[1]}
@@ -114,6 +196,48 @@ def apply_entries(sh, x, es):
                     cur[k] = leaf
         out[j + 1] = ['m'] + [[k, cur[k]] for k in sorted(cur)]
     return out
+
+
+def gen_payload(f, base_field, rnd):
+    """a payload VALUE for the field that need not come from any comparison, safe to apply to the base"""
+    if flat_field(f):
+        return gen_flat(f, rnd)
+    if f['k'] == 'recmap':
+        return gen_rm_payload(f, base_field, rnd)
+    if f['k'] == 'recurse':
+        inner = f['inner']; uns = [j for j, g in enumerate(inner['fields']) if not g['skip']]
+        return [[jj, gen_flat(inner['fields'][jj], rnd)] for jj in [rnd.choice(uns) for _ in range(rnd.choice([0, 1, 2, 4]))]]
+    if f['k'] == 'ropt':
+        inner = f['inner']; uns = [j for j, g in enumerate(inner['fields']) if not g['skip']]
+        r = rnd.random()
+        if r < 0.25: return 'none'
+        if r < 0.55 or base_field == 'none': return ['full', gen_leaf_vals(inner, rnd)]
+        return ['some', [[jj, gen_flat(inner['fields'][jj], rnd)] for jj in [rnd.choice(uns) for _ in range(rnd.choice([0, 1, 2, 4]))]]]
+    if f['k'] == 'ordered':
+        from props import c08
+        return c08.rand_script(rnd, len(base_field) - 1, 8)
+    if f['k'] == 'unord':
+        if rnd.random() < 0.3:
+            vals = [rnd.choice([0, 1, 7, 2 ** 32 - 1]) for _ in range(rnd.randrange(0, 6))]
+            return ['Replace', sorted(set(vals)) if f['cont'] in ('HashSet', 'BTreeSet') else vals]
+        cs = []
+        for x in rnd.sample(range(10), rnd.randrange(0, 5)):
+            k = rnd.choice(['InsertMany', 'RemoveMany', 'InsertFew', 'RemoveFew', 'InsertSingle', 'RemoveSingle'])
+            if f['cont'] in ('HashSet', 'BTreeSet'): k = rnd.choice(['InsertSingle', 'RemoveSingle'])
+            if k.endswith('Many'): cs.append([k, x, rnd.choice([256, 300])])
+            elif k.endswith('Few'): cs.append([k, x, rnd.choice([2, 3, 255])])
+            else: cs.append([k, x])
+        return ['Modify', cs]
+    if f['k'] == 'map':
+        if rnd.random() < 0.3:
+            return ['Replace', [[k, rnd.randrange(4)] for k in rnd.sample(range(12), rnd.randrange(0, 5))]]
+        # (what inserting a key the base already holds means is not fixed by anything: the comparison never does it)
+        have = {int(kv[0]) for kv in base_field[1:]}
+        cs = []
+        for k in rnd.sample(range(12), rnd.randrange(0, 5)):
+            cs.append(['InsertSingle', k, rnd.randrange(4)] if (k not in have and rnd.random() < 0.7) else ['RemoveSingle', k])
+        return ['Modify', cs]
+    raise ValueError(f['k'])
 
 
 def gen_rm_payload(f, base_field, rnd):
@@ -141,17 +265,20 @@ def gen_rm_payload(f, base_field, rnd):
 
 
 def tag_offsets(fmt, sh, es):
-    """byte offsets of discriminants in an encoded entry list: (entry, recursive-map diff, first change) of the FIRST entry"""
+    """byte offsets of discriminants in an encoded entry list: the entry's, and those of the FIRST entry's payload"""
     if not es:
         return []
     dl = 2 if fmt == 'nano' else 4
     tl = 1 if fmt == 'nano' else 4
     offs = [('bad-entry-discriminant', 8, dl)]
     j, p = es[0]
-    if not flat_field(sh['fields'][int(j)]):
-        offs.append(('bad-map-discriminant', 8 + dl, tl))
+    f = sh['fields'][int(j)]
+    if f['k'] in ('recmap', 'unord', 'map'):
+        offs.append(('bad-diff-discriminant', 8 + dl, tl))
         if p[0] == 'Modify' and p[1]:
             offs.append(('bad-change-discriminant', 8 + dl + tl + 8, tl))
+    elif f['k'] == 'ordered' and p:
+        offs.append(('bad-change-discriminant', 8 + dl + 8, tl))
     return offs
 
 
@@ -215,8 +342,8 @@ def run(res, shs, binp, tier, seed):
                 es = m[1]
                 for e in es:
                     f = sh['fields'][int(e[0])]
-                    hbump(res, 'struct-tie:' + ('flat' if flat_field(f) else 'map:' + e[1][0]))
-                    if not flat_field(f) and e[1][0] == 'Modify':
+                    hbump(res, 'struct-tie:' + f['k'] + ((':' + e[1][0]) if f['k'] in ('recmap', 'unord', 'map') else (':' + (e[1] if e[1] == 'none' else e[1][0])) if f['k'] == 'ropt' else ''))
+                    if f['k'] == 'recmap' and e[1][0] == 'Modify':
                         for c in e[1][1]: hbump(res, 'struct-tie:change:' + c[0])
                 want = apply_entries(sh, a, es)
                 if mem == 'panic' or shapes.canon_value(sh, want) != shapes.canon_value(sh, mem):
@@ -246,7 +373,7 @@ def run(res, shs, binp, tier, seed):
                     es.append([j, gen_flat(f, rnd)])
                 elif j not in used_maps:
                     used_maps.add(j)
-                    es.append([j, gen_rm_payload(f, base[j + 1], rnd)])
+                    es.append([j, gen_payload(f, base[j + 1], rnd)])
             items.append((i, sh, sk, ks, es, base))
     dl = [sx.show(['senc', fmt, sk, ks, es]) for (i, sh, sk, ks, es, base) in items for fmt in ('nano', 'bincode')]
     rc, mo = core.run_driver(dl)
